@@ -168,6 +168,9 @@ def graddrop_candidates(J: np.ndarray, leak: np.ndarray) -> tuple[np.ndarray, np
     return pos, neg
 
 
+GRADDROP_F = {"identity": lambda p: p, "square": lambda p: p ** 2, "sqrt": lambda p: np.sqrt(p), "steep": lambda p: np.clip(4 * (p - 0.5) + 0.5, 0, 1)}
+
+
 def graddrop_purity(J: np.ndarray) -> np.ndarray:
     den = np.abs(J).sum(0)
     return 0.5 * (1 + np.divide(J.sum(0), den, out=np.full(J.shape[1], np.nan), where=den > 0))
